@@ -5,8 +5,10 @@ package harness
 import (
 	"context"
 	"encoding/json"
+	"errors"
 	"fmt"
 	"os"
+	"strings"
 	"sync"
 	"sync/atomic"
 	"testing"
@@ -151,6 +153,21 @@ func runC13With(c *c13Case, srv *c13Server, server *lime.Server, env *c13Env) *c
 	case <-reached:
 	case <-time.After(30 * time.Second):
 	}
+	var unstickInitiator func()
+	if c.InitiatorBusy && cc != nil && strings.HasPrefix(c.Initiator, "server") {
+		g := make(chan struct{})
+		srv.stuck.Store(g)
+		unstickInitiator = func() { srv.stuck.Store((chan struct{})(nil)); close(g) }
+		ctx, cancel := context.WithTimeout(context.Background(), 2*time.Second)
+		_ = cc.SendMessage(ctx, c13Message("stick"))
+		for i := 0; i < c.ChanBuf+3; i++ {
+			n := &lime.Notification{Event: lime.NotificationEventReceived}
+			n.ID = fmt.Sprint("busy-", i)
+			_ = cc.SendNotification(ctx, n)
+		}
+		cancel()
+		env.wait()
+	}
 	tctx, tcancel := context.WithTimeout(context.Background(), 10*time.Second)
 	sessionTrans := env.serverTrans() // server-side transports of the session(s) that exist now (a Client may reconnect later)
 	if c.Initiator == "client-close" {
@@ -190,14 +207,14 @@ func runC13With(c *c13Case, srv *c13Server, server *lime.Server, env *c13Env) *c
 			unstick()
 		}
 	case "server-finish":
-		if err := sc.FinishSession(tctx); err != nil {
+		if err := c13Bounded(func() error { return sc.FinishSession(tctx) }); err != nil {
 			obs.TermErr = err.Error()
 		}
 		for _, t := range sessionTrans {
 			obs.InitiatorConnAtRet = obs.InitiatorConnAtRet || t.Connected()
 		}
 	case "server-fail":
-		if err := sc.FailSession(tctx, &lime.Reason{Code: 42, Description: "go away"}); err != nil {
+		if err := c13Bounded(func() error { return sc.FailSession(tctx, &lime.Reason{Code: 42, Description: "go away"}) }); err != nil {
 			obs.TermErr = err.Error()
 		}
 		for _, t := range sessionTrans {
@@ -209,6 +226,9 @@ func runC13With(c *c13Case, srv *c13Server, server *lime.Server, env *c13Env) *c
 		}
 	}
 	tcancel()
+	if unstickInitiator != nil {
+		unstickInitiator()
+	}
 	traffic.Wait()
 	env.settle(bound, func() bool {
 		if cc != nil {
@@ -350,6 +370,7 @@ func genC13(rt *rapid.T, transports []string) *c13Case {
 	if c.Transport == "fconn-tls" {
 		c.TLS12 = rapid.Bool().Draw(rt, "tls12")
 	}
+	c.InitiatorBusy = rapid.IntRange(0, 3).Draw(rt, "initiatorBusy") == 0
 	if c.Wiring == "client" {
 		c.Initiator = rapid.SampledFrom([]string{"client-close", "server-close", "server-finish", "server-fail"}).Draw(rt, "initiator")
 		if c.Initiator == "client-close" {
@@ -361,6 +382,11 @@ func genC13(rt *rapid.T, transports []string) *c13Case {
 	if rapid.IntRange(0, 3).Draw(rt, "idle") != 0 {
 		c.C2S = rapid.IntRange(0, 30).Draw(rt, "c2s")
 		c.S2C = rapid.IntRange(0, 30).Draw(rt, "s2c")
+		if c.InitiatorBusy {
+			// the notifications that keep the initiator busy are sent by the harness itself; a second client sender would wait
+			// for it on the channel's send lock, and a lock wait stops the virtual clock
+			c.C2S = 0
+		}
 		c.AfterSends = rapid.IntRange(0, c.C2S+c.S2C).Draw(rt, "after")
 	}
 	return c
@@ -410,5 +436,19 @@ func TestC13Replay(t *testing.T) {
 			t.Logf("obs: %s", b)
 		}
 		rec.Eval(&c, o)
+	}
+}
+
+var errC13NeverReturned = errors.New("the terminating call did not return within 60 s")
+
+// c13Bounded runs a terminating call and gives up waiting for it after a minute (it then stays behind).
+func c13Bounded(f func() error) error {
+	done := make(chan error, 1)
+	go func() { done <- f() }()
+	select {
+	case err := <-done:
+		return err
+	case <-time.After(60 * time.Second):
+		return errC13NeverReturned
 	}
 }
